@@ -5,6 +5,7 @@ Finite domain, enumerated completely in both tiers: Z = 1..103 x spelling varian
 -200..300 through every numeric route, non-elements, all 103^2 ordered pairs, formula multisets.
 """
 import itertools
+import os
 
 import numpy as np
 
@@ -210,13 +211,7 @@ def check_formulas(part, chunks):
         part.outcome(("formula", len(set(zs)), len(zs)))
 
 
-def check_rejection_history(part):
-    """
-    acceptance must not depend on what was looked up before: strings that merely START like an element (symbol + extra
-    letters, name + digit, ...) are rejected before AND after every valid spelling of every element has been resolved once
-    """
-    from chmpy.core.element import Element
-
+def rejection_probes():
     taken = {e[0].lower() for e in ELEMENTS} | {e[1].lower() for e in ELEMENTS} | {"d"}
     probes = []
     for sym, name in [(e[0], e[1]) for e in ELEMENTS]:
@@ -224,32 +219,71 @@ def check_rejection_history(part):
             letters = "".join(ch for ch in cand if ch.isalpha()).lower()
             if letters not in taken:
                 probes.append(cand)
-    probes += ["Hello", "Copper2", "carbon1", "Cab1", "Nab", "Heq3"]
-    probes = sorted(set(probes))
+    return sorted(set(probes + CLEAR_NON_ELEMENTS))
+
+
+CLEAR_NON_ELEMENTS = ["Hello", "Copper2", "carbon1", "Cab1", "Nab", "Heq3"]
+
+
+def rejection_history_main():
+    """runs in a pristine interpreter: outcome of every probe before and after every valid lookup, as JSON on stdout"""
+    import json
+    from chmpy.core.element import Element
+
     routes = {"Element[...]": lambda s: Element[s], "from_label": Element.from_label, "from_string": Element.from_string}
 
-    def sweep(when):
-        for s in probes:
+    def sweep():
+        out = {}
+        for s in rejection_probes():
             for rname, fn in routes.items():
-                part.ev()
-                part.tr()
                 try:
-                    r = fn(s)
+                    out["%s|%s" % (rname, s)] = int(fn(s).atomic_number)
                 except Exception:
-                    continue
-                part.fail("non-element-accepted:%s:%s" % (when, rname), "%r names no element but %s maps it to %r (%s)" % (s, rname, r, when), {"kind": "rejhist"})
-                return False
-        return True
+                    out["%s|%s" % (rname, s)] = None
+        return out
 
-    if sweep("before-any-valid-lookup"):
-        for z in range(1, 104):
-            for rname, fn in routes_for(z):
-                try:
-                    fn()
-                except Exception:
-                    pass
-        sweep("after-all-valid-lookups")
-    part.outcome(("rejhist", len(probes)))
+    before = sweep()
+    for z in range(1, 104):
+        for rname, fn in routes_for(z):
+            try:
+                fn()
+            except Exception:
+                pass
+    print(json.dumps({"before": before, "after": sweep()}))
+
+
+def check_rejection_history(part):
+    """
+    the answer to a lookup must not depend on what was looked up before: ~700 strings that merely START like an element
+    (symbol + extra letters, name + digit, ...) get the same answer - an element or an error - in a pristine interpreter before
+    and after every valid spelling of every element has been resolved once; the clear non-elements among them are rejected
+    """
+    import json
+    import subprocess
+    import sys
+    from mc.paths import REPO_SRC
+
+    code = "import sys; sys.path[:0] = [%r, %r]; from mc.checks import c17; c17.rejection_history_main()" % (
+        os.path.dirname(os.path.dirname(os.path.dirname(os.path.abspath(__file__)))), REPO_SRC)
+    r = subprocess.run([sys.executable, "-B", "-c", code], capture_output=True, text=True)
+    part.ev()
+    if r.returncode != 0:
+        part.fail("harness:rejection-history", "pristine interpreter failed: %s" % r.stderr[-300:], {"kind": "rejhist"})
+        return
+    res = json.loads(r.stdout.strip().split("\n")[-1])
+    for k, v in res["before"].items():
+        part.tr()
+        rname, s = k.split("|", 1)
+        if res["after"][k] != v:
+            part.fail("lookup-depends-on-history:%s" % rname, "%s(%r) gives %s in a fresh interpreter and %s after every element has been looked up once"
+                      % (rname, s, "an error" if v is None else "Z=%d" % v, "an error" if res["after"][k] is None else "Z=%d" % res["after"][k]), {"kind": "rejhist"})
+            break
+    for s in CLEAR_NON_ELEMENTS:
+        for rname in ("Element[...]", "from_label", "from_string"):
+            for when in ("before", "after"):
+                if res[when]["%s|%s" % (rname, s)] is not None:
+                    part.fail("non-element-accepted:%s:%s" % (when, rname), "%r names no element but %s maps it to Z=%d (%s the valid lookups)" % (s, rname, res[when]["%s|%s" % (rname, s)], when), {"kind": "rejhist"})
+    part.outcome(("rejhist", len(res["before"])))
     part.nstates(2)
 
 
@@ -306,6 +340,8 @@ def replay(ctx, case):
         check_integers(ctx, [case["n"]])
     elif k == "non":
         check_non_elements(ctx)
+    elif k == "rejhist":
+        check_rejection_history(ctx)
     elif k == "order":
         check_order(ctx)
     elif k == "formula":
